@@ -6,6 +6,7 @@
      - a table with prefix p is the part of its parent whose keys start with p, with p removed,
        and its writes are the parent's writes at p ++ key (C24);
      - a synced store is its parent (C23);
+     - a lazy flushable is a flushable whose parent counts as empty until its first flush;
      - a batch is the list of its operations in the caller's own keys; replay delivers them in
        insertion order; a snapshot is the map at the time it was taken;
      - compacting a whole table must ask the base for a range covering every key with the
@@ -19,7 +20,8 @@ Inductive sst :=
 | SEng (m : kvmap)
 | SFlu (log : list wop) (u : sst)
 | STab (p : key) (u : sst)
-| SSyn (u : sst).
+| SSyn (u : sst)
+| SLzy (log : list wop) (init : bool) (u : sst).
 
 Definition wop_pre (p : key) (o : wop) : wop :=
   match o with WPut k v => WPut (p ++ k) v | WDel k => WDel (p ++ k) end.
@@ -30,6 +32,7 @@ Fixpoint sview (s : sst) : kvmap :=
   | SFlu log u => kv_overlay_view log (sview u)
   | STab p u => kv_table_view p (sview u)
   | SSyn u => sview u
+  | SLzy log i u => kv_overlay_view log (if i then sview u else [])
   end.
 
 Fixpoint swrite (s : sst) (ops : list wop) : sst :=
@@ -38,16 +41,25 @@ Fixpoint swrite (s : sst) (ops : list wop) : sst :=
   | SFlu log u => SFlu (log ++ ops) u
   | STab p u => STab p (swrite u (map (wop_pre p) ops))
   | SSyn u => SSyn (swrite u ops)
+  | SLzy log i u => SLzy (log ++ ops) i u
   end.
 
-Definition sflush (s : sst) : sst := match s with SFlu log u => SFlu [] (swrite u log) | _ => s end.
-Definition sdrop (s : sst) : sst := match s with SFlu log u => SFlu [] u | _ => s end.
-Definition snfp (s : sst) : option nat := match s with SFlu log _ => Some (kv_log_keys log) | _ => None end.
+Definition sflush (s : sst) : sst :=
+  match s with
+  | SFlu log u => SFlu [] (swrite u log)
+  | SLzy log _ u => SLzy [] true (swrite u log)
+  | _ => s
+  end.
+Definition sdrop (s : sst) : sst :=
+  match s with SFlu log u => SFlu [] u | SLzy log i u => SLzy [] i u | _ => s end.
+Definition snfp (s : sst) : option nat :=
+  match s with SFlu log _ => Some (kv_log_keys log) | SLzy log _ _ => Some (kv_log_keys log) | _ => None end.
 
 Fixpoint ssub (d : nat) (s : sst) : sst :=
   match d with
   | O => s
-  | S d' => match s with SFlu _ u => ssub d' u | STab _ u => ssub d' u | SSyn u => ssub d' u | _ => s end
+  | S d' => match s with SFlu _ u => ssub d' u | STab _ u => ssub d' u | SSyn u => ssub d' u
+            | SLzy _ _ u => ssub d' u | _ => s end
   end.
 Fixpoint supd (d : nat) (f : sst -> sst) (s : sst) : sst :=
   match d with
@@ -56,6 +68,7 @@ Fixpoint supd (d : nat) (f : sst -> sst) (s : sst) : sst :=
             | SFlu l u => SFlu l (supd d' f u)
             | STab p u => STab p (supd d' f u)
             | SSyn u => SSyn (supd d' f u)
+            | SLzy l i u => SLzy l i (supd d' f u)
             | _ => f s
             end
   end.
@@ -66,6 +79,7 @@ Fixpoint sprefix (s : sst) : key :=
   | STab p u => sprefix u ++ p
   | SFlu _ u => sprefix u
   | SSyn u => sprefix u
+  | SLzy _ _ u => sprefix u
   | _ => []
   end.
 
@@ -129,8 +143,8 @@ Definition spec_run (s0 : sst) (ops : list op) : list obs :=
   spec_run_ops {| ss_store := s0; ss_batches := []; ss_snaps := [] |} ops.
 
 (* the judgement for an observed Compact range on a handle (whole-table compaction only) *)
-Definition compact_ok (s : sst) (h : handle) (start limit : okey) (lo hi : okey) : bool :=
-  match start, limit with
-  | None, None => compact_covers (sprefix (sh_view h s)) lo hi
-  | _, _ => true
+Definition compact_ok (s : sst) (h : handle) (start limit : okey) (r : option (okey * okey)) : bool :=
+  match start, limit, r with
+  | None, None, Some (lo, hi) => compact_covers (sprefix (sh_view h s)) lo hi
+  | _, _, _ => true
   end.
